@@ -433,7 +433,113 @@ def rule_dim(run):
     run.trust('attribute / helper type table of dim.py (area L2, surface/top/bottom/centre/pos positions, thickness/distance lengths, volume L3)')
 
 
+def rule_sumdist(run):
+    run.rule('SUMDIST', 'vertical connection distances add up to the centre separation: below an ordinary block '
+             '(lay.top - lay.centre) + (centre of the block above - its layer bottom), with top(lay) = bottom(layer above); to the '
+             'atmosphere: (surface - block centre, atmosphere_connection); block heights of horizontal connections come from the '
+             'same block_surface() that block_volume uses', floor=5)
+    prog = run.prog
+    av = prog.func(T2 + 'add_vertical_layer_connections')
+    tv = [n for n in walk_no_nested(av.node) if isinstance(n, ast.For) and norm(n.iter) == 'layercols']
+    ti = [n for n in tv[0].body if isinstance(n, ast.If)] if tv else []
+    if not ti:
+        run.unknown('vertical connections :: distances', 'top-of-column branch not found', where=av.where()); return
+    top, inner = ti[0].body, ti[0].orelse
+    def asg(stmts, name):
+        v = [s.value for s in stmts if isinstance(s, ast.Assign) and norm(s.targets[0]) == name]
+        return v[0] if v else None
+    # interior
+    b, a = asg(inner, 'belowdist'), asg(inner, 'abovedist')
+    key = 'vertical connections :: interior distances add up to the centre separation'
+    if b is None or a is None: run.unknown(key, 'assignments not found', where=av.where(ti[0]))
+    else:
+        total = ast.parse(('(%s) + (%s)' % (norm(b), norm(a))).replace('abovelayer.bottom', 'lay.top'), mode='eval').body
+        r = compare(total, 'aboveblk.centre[2] - lay.centre')
+        names_a = set(x.id for x in ast.walk(a) if isinstance(x, ast.Name))
+        if r == 'equal': run.ok(key, norm(total), where=av.where(ti[0]))
+        elif 'aboveblk' not in names_a:
+            run.violated(key, 'the upper distance `%s` does not depend on the block above: when that block is a truncated surface block its '
+                         'centre is not the layer centre, and the two distances no longer add up to the centre-to-centre separation' % norm(a),
+                         where=av.where(ti[0]))
+        elif r == 'different':
+            run.violated(key, 'below + above = `%s`, which is not centre(above) - centre(this) = aboveblk.centre[2] - lay.centre' % norm(total), where=av.where(ti[0]))
+        else: run.unknown(key, 'sum `%s` not comparable' % norm(total), where=av.where(ti[0]))
+    # atmosphere
+    b, a = asg(top, 'belowdist'), asg(top, 'abovedist')
+    key = 'vertical connections :: atmosphere distances (surface - block centre, atmosphere_connection)'
+    if b is None or a is None: run.unknown(key, 'assignments not found', where=av.where(ti[0]))
+    else:
+        r1 = compare(b, 'col.surface - thisblk.centre[2]')
+        r2 = compare(a, 'geo.atmosphere_connection')
+        if r1 == 'equal' and r2 == 'equal': run.ok(key, where=av.where(ti[0]))
+        elif 'different' in (r1, r2): run.violated(key, 'distances are (`%s`, `%s`)' % (norm(b), norm(a)), where=av.where(ti[0]))
+        else:
+            nb = set(x.id for x in ast.walk(b) if isinstance(x, ast.Name))
+            if 'thisblk' not in nb and 'col' in nb:
+                run.violated(key, 'the lower distance `%s` does not use the block centre' % norm(b), where=av.where(ti[0]))
+            else: run.unknown(key, '(`%s`, `%s`)' % (norm(b), norm(a)), where=av.where(ti[0]))
+    # vertical area and gravity cosine
+    con = [c for c in ast.walk(tv[0]) if isinstance(c, ast.Call) and isinstance(c.func, ast.Name) and c.func.id == 't2connection']
+    if con and len(con[0].args) >= 5:
+        r = compare(con[0].args[3], 'col.area')
+        run.check(r == 'equal', 'vertical connections :: area is the column area', 'area is `%s`' % norm(con[0].args[3]), where=av.where(con[0]))
+        r = compare(con[0].args[4], 'tilt[2]')
+        run.check(r == 'equal', 'vertical connections :: gravity cosine is the vertical tilt component', 'dircos is `%s`' % norm(con[0].args[4]), where=av.where(con[0]))
+        r = compare(con[0].args[2], '[belowdist, abovedist]')
+        run.check(r == 'equal', 'vertical connections :: distances ordered (this block, block above)', 'distances `%s`' % norm(con[0].args[2]), where=av.where(con[0]))
+    # block height used for the interface area
+    cp = prog.func(G + 'connection_params')
+    h = [n for n in walk_no_nested(cp.node) if isinstance(n, ast.Assign) and norm(n.targets[0]) == 'height']
+    key = 'connection_params :: block height from block_surface(), as in block_volume'
+    bv = prog.func(G + 'block_volume')
+    uses_bv = any(isinstance(c, ast.Call) and call_name(c) == 'block_surface' for c in ast.walk(bv.node))
+    if not h or not uses_bv: run.unknown(key, 'height assignment / block_volume shape not found', where=cp.where())
+    else:
+        calls = [c for c in ast.walk(h[0].value) if isinstance(c, ast.Call) and call_name(c) == 'block_surface']
+        r = compare(h[0].value, 'min([self.block_surface(lay, c) - lay.bottom for c in con.column])')
+        if r == 'equal': run.ok(key, where=cp.where(h[0]))
+        elif not calls:
+            run.violated(key, 'height is `%s`: the top of the block is not taken from block_surface(), which block_volume uses; the two '
+                         'disagree for a column whose surface lies above the top layer, so area x distance no longer matches the volumes'
+                         % norm(h[0].value), where=cp.where(h[0]))
+        elif r == 'different': run.violated(key, 'height is `%s`' % norm(h[0].value), where=cp.where(h[0]))
+        else: run.unknown(key, norm(h[0].value), where=cp.where(h[0]))
+    ar = [n for n in walk_no_nested(cp.node) if isinstance(n, ast.Assign) and norm(n.targets[0]) == 'area']
+    if ar:
+        r = compare(ar[0].value, 'sidelength * height')
+        k = 'connection_params :: area = shared edge length x height'
+        if r == 'equal': run.ok(k, where=cp.where(ar[0]))
+        elif r == 'different': run.violated(k, 'area is `%s`' % norm(ar[0].value), where=cp.where(ar[0]))
+        else: run.unknown(k, norm(ar[0].value), where=cp.where(ar[0]))
+    sl = [n for n in walk_no_nested(cp.node) if isinstance(n, ast.Assign) and norm(n.targets[0]) == 'sidelength']
+    if sl:
+        r = compare(sl[0].value, 'norm(con.node[0].pos - con.node[1].pos)', ['norm(con.node[1].pos - con.node[0].pos)'])
+        k = 'connection_params :: shared edge length'
+        if r == 'equal': run.ok(k, where=cp.where(sl[0]))
+        elif r == 'different': run.violated(k, 'edge length is `%s`' % norm(sl[0].value), where=cp.where(sl[0]))
+        else: run.unknown(k, norm(sl[0].value), where=cp.where(sl[0]))
+    ds = [n for n in walk_no_nested(cp.node) if isinstance(n, ast.Assign) and norm(n.targets[0]) == 'dist']
+    if ds:
+        r = compare(ds[0].value, '[norm(line_projection(c.centre, nodeline) - c.centre) for c in con.column]')
+        k = 'connection_params :: perpendicular distance from each column centre to the edge, in con.column order'
+        if r == 'equal': run.ok(k, where=cp.where(ds[0]))
+        elif r == 'different': run.violated(k, 'distances are `%s`' % norm(ds[0].value), where=cp.where(ds[0]))
+        else: run.unknown(k, norm(ds[0].value), where=cp.where(ds[0]))
+    # horizontal gravity cosine: d . tilt / |d|
+    ah = prog.func(T2 + 'add_horizontal_layer_connections')
+    dc = [n for n in ast.walk(ah.node) if isinstance(n, ast.Assign) and norm(n.targets[0]) == 'dircos']
+    dd = [n for n in ast.walk(ah.node) if isinstance(n, ast.Assign) and norm(n.targets[0]) == 'd']
+    if dc and dd:
+        r1 = compare(dc[0].value, 'np.dot(d, tilt) / np.linalg.norm(d)')
+        r2 = compare(dd[0].value, 'conblocks[1].centre - conblocks[0].centre')
+        k = 'horizontal connections :: gravity cosine of the centre-to-centre line, first to second block'
+        if r1 == 'equal' and r2 == 'equal': run.ok(k, where=ah.where(dc[0]))
+        elif 'different' in (r1, r2): run.violated(k, 'd = `%s`, dircos = `%s`' % (norm(dd[0].value), norm(dc[0].value)), where=ah.where(dc[0]))
+        else: run.unknown(k, 'd = `%s`, dircos = `%s`' % (norm(dd[0].value), norm(dc[0].value)), where=ah.where(dc[0]))
+
+
 def check(run):
     run.guarded('TWIN', rule_twin)
+    run.guarded('SUMDIST', rule_sumdist)
     run.guarded('PRED', lambda r: rule_pred(r, floor=10))
     run.guarded('DIM', rule_dim)
